@@ -141,6 +141,25 @@ fn build(tier: Tier) -> Vec<Scenario> {
             out.push(s);
         }
     }
+    // fewer consumer replicas than producers on three uneven hosts: every connection of the
+    // network layer must be established (a demultiplexer that stops accepting too early leaves a
+    // host trying to connect for ever)
+    for layout in [Layout::Remote(vec![2, 1, 1]), Layout::Remote(vec![1, 1, 2])] {
+        let cores = layout.total_cores() as usize;
+        let cfg = JobCfg { layout, batch: BatchMode::fixed(1), capacity: 1 };
+        for (name, prog) in [("repl-lim2", vec![Map, ReplLim2, Shuffle]), ("repl-lim2-fold", vec![ReplLim2, GbSum])] {
+            out.push(program_scenario(
+                &format!("C04/remote-{name}"),
+                &prog,
+                &[1, 2, 3, 4, 5, 6, 7, 8],
+                SrcKind::Par((0..8).map(|i| i % cores).collect()),
+                &cfg,
+                0,
+                &ORDERS3[..if tier == Tier::Quick { 1 } else { 3 }],
+                format!("{name}:"),
+            ));
+        }
+    }
     if tier == Tier::Quick {
         deepen(&mut out, &|n| {
             n.ends_with("in[1, 2, 3]/iter/local2-fixed2-cap0")
